@@ -209,6 +209,14 @@ func run() (code int) {
 		printManifest()
 		return 0
 	}
+	if *flagSigs {
+		c, err := loadCtx(loadOpts{dir: *flagRepo, rootPath: rootPkgPath, config: "default"})
+		if err != nil {
+			panic(err)
+		}
+		fmt.Print(sigDump(c))
+		return 0
+	}
 	vd := verifDir()
 	if *flagReplay != "" {
 		return replay(vd, *flagReplay)
@@ -527,6 +535,7 @@ func replay(vd, path string) int {
 
 // ---- MANIFEST generation (maintenance: `icecheck -manifest > MANIFEST.json`) ----
 
+var flagSigs = flag.Bool("sigs", false, "print the extracted wire signatures (debug)")
 var flagManifest = flag.Bool("manifest", false, "print MANIFEST.json generated from the property table")
 
 type naEntry struct {
